@@ -175,10 +175,10 @@ def check_box_sums(fn):
     return seen
 
 
-def kernel_model_defs():
+def _k_fit_gain():
     from homonim.kernel_model import KernelModel
-    out = []
     env0 = dict(SUMNAME)
+    out = []
     # ---- _fit_gain
     fn = fn_body(src_of(KernelModel._fit_gain))
     seen = check_box_sums(fn)
@@ -197,6 +197,13 @@ def kernel_model_defs():
     if len(r2c) != 1 or U(r2c[0].args[2]) != 'param_ra.array[:1]' or any(
             U(k.value) != k.arg for k in r2c[0].keywords if k.arg in SUMNAME or k.arg in ('mask', 'kernel_shape')):
         raise TranslationError('_fit_gain: call of _r2_array')
+    return out
+
+
+def _k_fit_gain_offset():
+    from homonim.kernel_model import KernelModel
+    env0 = dict(SUMNAME)
+    out = []
     # ---- _fit_gain_offset
     fn = fn_body(src_of(KernelModel._fit_gain_offset))
     seen = check_box_sums(fn)
@@ -237,6 +244,13 @@ def kernel_model_defs():
     tr = Tr(env)
     out.append(('fitGainOffset_regain', KSYM + ' (oF : Rat)', 'Rat', f'{tr(d[2].args[0])} / {tr(d[2].args[1])}',
                 '_fit_gain_offset: ' + U(d[2])))
+    return out
+
+
+def _k_r2():
+    from homonim.kernel_model import KernelModel
+    env0 = dict(SUMNAME)
+    out = []
     # ---- _r2_array
     fn = fn_body(src_of(KernelModel._r2_array))
     for t, v, _ in assigns(fn):
@@ -262,6 +276,13 @@ def kernel_model_defs():
     out.append(('r2_tot', KSYM, 'Rat', tot, '_r2_array: ss_tot_array'))
     out.append(('r2_res1', KSYM + ' (g : Rat)', 'Rat', f'({res1} * {m})', '_r2_array: one-parameter ss_res_array * mask_sum'))
     out.append(('r2_res2', KSYM + ' (g o : Rat)', 'Rat', f'({res2} * {m})', '_r2_array: two-parameter ss_res_array * mask_sum'))
+    return out
+
+
+def _k_blk():
+    from homonim.kernel_model import KernelModel
+    env0 = dict(SUMNAME)
+    out = []
     # ---- _fit_gain_blk_offset / _fit_block_norm / apply
     fn = fn_body(src_of(KernelModel._fit_gain_blk_offset))
     env = {'src_ra.array': 'x', 'norm_model[0]': 'n0', 'norm_model[1]': 'n1', 'param_ra.array[0]': 'g'}
@@ -293,7 +314,7 @@ def kernel_model_defs():
     return out
 
 
-def compare_stats_defs():
+def _s_cmp():
     from homonim.compare import RasterCompare
     from homonim.stats import ParamStats
     out = []
@@ -324,6 +345,13 @@ def compare_stats_defs():
     ret = [n for n in ast.walk(fn) if isinstance(n, ast.Return)][0]
     if U(ret.value).replace(' ', '') != 'dict(r2=pcc**2,rmse=rmse,rrmse=rrmse,n=int(mask_sum))':
         raise TranslationError(f'get_band_stats returns `{U(ret.value)}`')
+    return out
+
+
+def _s_cmp_mean():
+    from homonim.compare import RasterCompare
+    from homonim.stats import ParamStats
+    out = []
     # the Mean row: division by the number of compared bands
     fn2 = fn_body(src_of(RasterCompare._get_image_stats), '_get_image_stats')
     ms = U(the_assign(fn2, 'mean_stats')).replace(' ', '')
@@ -332,6 +360,13 @@ def compare_stats_defs():
     if U(the_assign(fn2, 'sum_over_bands', 1)).replace(' ', '') != '{k:sum_over_bands.get(k,0)+vfork,vinband_stats.items()}':
         raise TranslationError('_get_image_stats: accumulation over bands')
     out.append(('cmp_meanRow', '(total nbands : Rat)', 'Rat', '(total / nbands)', '_get_image_stats: v / len(image_sums)'))
+    return out
+
+
+def _s_stats():
+    from homonim.compare import RasterCompare
+    from homonim.stats import ParamStats
+    out = []
     # stats.py
     fn = fn_body(src_of(ParamStats._get_image_stats))
     d = [n for n in ast.walk(fn) if isinstance(n, ast.Call) and U(n.func) == 'dict'][0]
@@ -349,7 +384,7 @@ def compare_stats_defs():
     return out
 
 
-def geometry_defs():
+def _g_blocks():
     from homonim.raster_pair import RasterPairReader
     from homonim import utils
     from homonim.fuse import RasterFuse
@@ -389,6 +424,14 @@ def geometry_defs():
     if bps != ['BlockPair(band_i, other_in_block, proc_in_block, other_out_block, proc_out_block, outer)',
                'BlockPair(band_i, proc_in_block, other_in_block, proc_out_block, other_out_block, outer)']:
         raise TranslationError(f'block_pairs: BlockPair construction {bps}')
+    return out
+
+
+def _g_resolve():
+    from homonim.raster_pair import RasterPairReader
+    from homonim import utils
+    from homonim.fuse import RasterFuse
+    out = []
     # _resolve_proc_crs: auto -> the coarser image (the reference when equal); an explicit choice is returned unchanged
     fn = fn_body(src_of(RasterPairReader._resolve_proc_crs))
     if U(the_assign(fn, 'src_pixel_smaller')) != 'np.prod(np.abs(src_im.res)) <= np.prod(np.abs(ref_im.res))':
@@ -399,6 +442,14 @@ def geometry_defs():
     if pcs != ['ProcCrs.ref if src_pixel_smaller else ProcCrs.src'] or U(iff[0].test) != 'proc_crs == ProcCrs.auto' or rets != ['proc_crs']:
         raise TranslationError(f'_resolve_proc_crs: resolution logic {pcs} {rets}')
     out.append(('resolveAutoIsRef', '(sa ra : Int)', 'Bool', '(decide (sa ≤ ra))', '_resolve_proc_crs: src_pixel_smaller (areas |res_x res_y|)'))
+    return out
+
+
+def _g_auto():
+    from homonim.raster_pair import RasterPairReader
+    from homonim import utils
+    from homonim.fuse import RasterFuse
+    out = []
     # _auto_block_shape: memory scale per processing grid
     fn = fn_body(src_of(RasterPairReader._auto_block_shape))
     ms = [U(v).replace(' ', '') for t, v, _ in assigns(fn) if t == 'mem_scale']
@@ -412,12 +463,28 @@ def geometry_defs():
         raise TranslationError('_auto_block_shape: halving loop')
     if U(the_assign(fn, 'block_shape', 1)) != "np.ceil(block_shape).astype('int')":
         raise TranslationError('_auto_block_shape: final ceil')
+    return out
+
+
+def _g_overlap():
+    from homonim.raster_pair import RasterPairReader
+    from homonim import utils
+    from homonim.fuse import RasterFuse
+    out = []
     # utils.overlap_for_kernel
     fn = fn_body(src_of(utils.overlap_for_kernel))
     ret = [n for n in ast.walk(fn) if isinstance(n, ast.Return)][0]
     if U(ret.value) != "tuple(np.ceil(kernel_shape / 2).astype('int'))" or U(the_assign(fn, 'kernel_shape')) != 'np.array(kernel_shape).astype(int)':
         raise TranslationError(f'overlap_for_kernel returns `{U(ret.value)}`')
     out.append(('overlapForKernel', '(k : Int)', 'Int', '(-((-k) / 2))', 'overlap_for_kernel: ceil(kernel_shape / 2), per axis'))
+    return out
+
+
+def _g_expand():
+    from homonim.raster_pair import RasterPairReader
+    from homonim import utils
+    from homonim.fuse import RasterFuse
+    out = []
     # utils.expand_window_to_grid, per axis: offset x, size w, expansion e (rational window coordinates)
     fn = fn_body(src_of(utils.expand_window_to_grid))
     want = {'(col_off, col_frac)': 'np.divmod(win.col_off - expand_pixels[1], 1)', '(row_off, row_frac)': 'np.divmod(win.row_off - expand_pixels[0], 1)',
@@ -429,6 +496,14 @@ def geometry_defs():
     out.append(('expandWindow_off', '(x w e : Rat)', 'Int', '(x - e).floor', 'expand_window_to_grid: divmod(off - e, 1)[0]'))
     out.append(('expandWindow_size', '(x w e : Rat)', 'Int', '(w + 2 * e + ((x - e) - ((x - e).floor : Rat))).ceil',
                 'expand_window_to_grid: ceil(size + 2 e + frac)'))
+    return out
+
+
+def _g_round():
+    from homonim.raster_pair import RasterPairReader
+    from homonim import utils
+    from homonim.fuse import RasterFuse
+    out = []
     # utils.round_bounds_to_grid, per axis: the two corners are rounded independently
     fn = fn_body(src_of(utils.round_bounds_to_grid))
     want = {'(cols, rows)': '~im.transform * (np.array([left, right]), np.array([top, bottom]))',
@@ -441,6 +516,14 @@ def geometry_defs():
                                           'height=max(row_range[1]-row_range[0],0))'):
         raise TranslationError(f'round_bounds_to_grid returns `{U(ret.value)}`')
     out.append(('roundBounds_size', '(r0 r1 : Int)', 'Int', '(max (r1 - r0) 0)', 'round_bounds_to_grid: max(range[1] - range[0], 0)'))
+    return out
+
+
+def _g_covers():
+    from homonim.raster_pair import RasterPairReader
+    from homonim import utils
+    from homonim.fuse import RasterFuse
+    out = []
     # utils.covers_bounds, per axis: window offset x and size w of im2 in im1 (n pixels), tolerance tol
     fn = fn_body(src_of(utils.covers_bounds))
     if U(the_assign(fn, 'win_ul')) != 'np.array((im1_win.row_off, im1_win.col_off))' or \
@@ -451,16 +534,34 @@ def geometry_defs():
         raise TranslationError(f'covers_bounds returns `{U(ret.value)}`')
     out.append(('covers_axis', '(x w n tol : Rat)', 'Bool', '(!(decide (x < -tol) || decide (n + tol < x + w)))',
                 'covers_bounds: not (win_ul < -tol or win_br > shape + tol), per axis'))
+    return out
+
+
+def _g_pindex():
+    from homonim.raster_pair import RasterPairReader
+    from homonim import utils
+    from homonim.fuse import RasterFuse
+    out = []
     # fuse._process_block: parameter band indexes
     fn = fn_body(src_of(RasterFuse._process_block))
     ix = U(the_assign(fn, 'indexes'))
     if ix != 'np.arange(param_ra.count) * len(self.src_bands) + block_pair.band_i + 1':
         raise TranslationError(f'_process_block: indexes = `{ix}`')
     out.append(('paramIndex', '(n i k : Nat)', 'Nat', '(k * n + i + 1)', '_process_block: np.arange(count) * len(src_bands) + band_i + 1'))
+
+
     return out
 
 
-GROUPS = (('kernel', kernel_model_defs), ('stats', compare_stats_defs), ('geom', geometry_defs))
+# one extractor per source function: a failure in one leaves the others (and the properties they serve) alone
+SECTIONS = [_k_fit_gain, _k_fit_gain_offset, _k_r2, _k_blk, _s_cmp, _s_cmp_mean, _s_stats, _g_blocks, _g_resolve, _g_auto,
+            _g_overlap, _g_expand, _g_round, _g_covers, _g_pindex]
+# definition-name prefixes each extractor is responsible for (used to attribute a failed extraction to properties)
+PROVIDES = {'_k_fit_gain': ('fitGain_',), '_k_fit_gain_offset': ('fitGainOffset_',), '_k_r2': ('r2_',),
+            '_k_blk': ('blk_', 'blockNorm_', 'applyParams'), '_s_cmp': ('cmp_',), '_s_cmp_mean': ('cmp_meanRow',),
+            '_s_stats': ('stats_',), '_g_blocks': ('blocks_',), '_g_resolve': ('resolveAutoIsRef',), '_g_auto': ('autoBlock_',),
+            '_g_overlap': ('overlapForKernel',), '_g_expand': ('expandWindow_',), '_g_round': ('roundBounds_',),
+            '_g_covers': ('covers_axis',), '_g_pindex': ('paramIndex',)}
 # which generated definitions (by name prefix) bear on which property's check
 SERVES = {
     'C01': ('fitGain', 'r2_', 'blk_', 'blockNorm_'), 'C02': ('fitGain', 'r2_', 'blk_', 'blockNorm_', 'applyParams'),
@@ -473,7 +574,8 @@ SERVES = {
 TIE = {
     'C01': [('SrcTieKernel', 'src_C01_')],
     'C02': [('SrcTieKernel', 'src_C01_'), ('SrcTieKernel', 'src_C14_apply'), ('E2E', 'block_transparent')],
-    'C03': [('E2E', 'block_transparent')],
+    'C03': [('E2E', 'block_transparent'), ('E2EMask', 'whole_image_'), ('E2EMask', 'block_mask_eq_whole')],
+    'C15': [('BandInfo', 'bandInfo_')],
     'C07': [('SrcTieKernel', 'src_C01_')], 'C14': [('SrcTieKernel', 'src_C14_'), ('SrcTieGeom', 'src_C14_')],
     'C11': [('SrcTieStats', 'src_C11_')], 'C12': [('SrcTieStats', 'src_C12_')], 'C05': [('SrcTieGeom', 'src_C05_'), ('SrcTieGeom', 'src_C06_block'), ('E2E', 'block_transparent'), ('E2E', 'partitions_agree')],
     'C06': [('SrcTieGeom', 'src_C06_')], 'C16': [('SrcTieGeom', 'src_C16_')], 'C18': [('SrcTieGeom', 'src_C18_')],
@@ -481,21 +583,18 @@ TIE = {
 
 
 def generate():
-    """(text of GeneratedCode.lean, {group: error text} for groups that could not be translated)"""
+    """(text of GeneratedCode.lean, {extractor name: error text} for the source functions that could not be translated)"""
     lines = ['/-', '  GENERATED by harness/py2lean.py from the source text of the homonim package - do not edit.',
              '  Each definition is the closed form of what the named statement of the code evaluates (see py2lean.py).', '-/',
              'namespace Homonim.Src', '']
     errors = {}
-    for gname, fn in GROUPS:
+    for fn in SECTIONS:
         try:
             defs = fn()
-        except TranslationError as ex:
-            errors[gname] = f'{type(ex).__name__}: {ex}'
-            lines += [f'-- group {gname}: NOT TRANSLATED - {ex}'.replace('\n', ' '), '']
-            continue
-        except Exception as ex:  # source could not even be located / parsed
-            errors[gname] = f'{type(ex).__name__}: {ex}'
-            lines += [f'-- group {gname}: NOT TRANSLATED - {type(ex).__name__}', '']
+        except Exception as ex:
+            msg = f'{type(ex).__name__}: {ex}'.replace('\n', ' ')
+            errors[fn.__name__] = msg
+            lines += [f'-- {fn.__name__}: NOT TRANSLATED - {msg[:200]}', '']
             continue
         for name, params, typ, body, doc in defs:
             lines.append(f'/-- {doc} -/'.replace('-/ -/', '-/'))
@@ -523,12 +622,9 @@ def refresh(pid, write_allowed=True):
     old = path.read_text() if path.exists() else ''
     problems = []
     mine = SERVES.get(pid, ())
-    group_of = {'fitGain': 'kernel', 'r2_': 'kernel', 'blk_': 'kernel', 'blockNorm_': 'kernel', 'applyParams': 'kernel',
-                'cmp_': 'stats', 'stats_': 'stats'}
-    for pre in mine:
-        g = group_of.get(pre, 'geom')
-        if g in errors and f'{g}: {errors[g]}' not in problems:
-            problems.append(f'{g}: {errors[g]}')
+    for fname, msg in errors.items():
+        if any(pre.startswith(m) or m.startswith(pre) for pre in PROVIDES.get(fname, ()) for m in mine):
+            problems.append(f'{fname[1:]}: {msg}')
     if old != new:
         if write_allowed:
             with common.build_lock():
